@@ -25,7 +25,8 @@ Record rstate := {
   outcome : outcome_t ;
   clock : Z ;
   tlog : list (tick * Z) ;     (* ghost: every processed tick with the clock reading passed to the reducer *)
-  idlelog : list (bool * nat)   (* ghost: at each WorkflowIdleEvent publication: (a delayed retry is scheduled, #ticks delivered to the mailbox and not yet pulled) *)
+  idlelog : list (bool * nat) ; (* ghost: at each WorkflowIdleEvent publication: (a delayed retry is scheduled, #ticks delivered to the mailbox and not yet pulled) *)
+  envlog : list tick            (* ghost: every tick the environment put into the mailbox (worker send_event calls, external deliveries) *)
 }.
 
 Fixpoint insert_wakeup (w : Z * Z * tick) (l : list (Z * Z * tick)) :=
@@ -39,7 +40,7 @@ Fixpoint insert_wakeup (w : Z * Z * tick) (l : list (Z * Z * tick)) :=
 Definition upd (r : rstate) st' tbuf' wk' wseq' ip' pend' pubs' out' : rstate :=
   {| st := st' ; tbuf := tbuf' ; wakeups := wk' ; wseq := wseq' ; idle_pending := ip' ;
      mailbox := mailbox r ; pending := pend' ; runningw := runningw r ; donew := donew r ;
-     published := pubs' ; ticklog := ticklog r ; outcome := out' ; clock := clock r ; tlog := tlog r ; idlelog := idlelog r |}.
+     published := pubs' ; ticklog := ticklog r ; outcome := out' ; clock := clock r ; tlog := tlog r ; idlelog := idlelog r ; envlog := envlog r |}.
 
 (* process_command *)
 Definition do_command (r : rstate) (c : command) : rstate :=
@@ -73,7 +74,7 @@ Definition log_tick (r : rstate) (t : tick) : rstate :=
   {| st := st r ; tbuf := tbuf r ; wakeups := wakeups r ; wseq := wseq r ; idle_pending := idle_pending r ;
      mailbox := mailbox r ; pending := pending r ; runningw := runningw r ; donew := donew r ;
      published := published r ; ticklog := ticklog r ++ [t] ; outcome := outcome r ; clock := clock r ;
-     tlog := tlog r ++ [(t, clock r)] ; idlelog := idlelog r |}.
+     tlog := tlog r ++ [(t, clock r)] ; idlelog := idlelog r ; envlog := envlog r |}.
 
 Definition publishes_idle (cs : list command) : bool :=
   existsb (fun c => match c with CPublish PIdle => true | _ => false end) cs.
@@ -86,7 +87,7 @@ Definition log_idle (r : rstate) (cs : list command) : rstate :=
        mailbox := mailbox r ; pending := pending r ; runningw := runningw r ; donew := donew r ;
        published := published r ; ticklog := ticklog r ; outcome := outcome r ; clock := clock r ;
        tlog := tlog r ;
-       idlelog := idlelog r ++ [(has_retry_wakeup (wakeups r), length (mailbox r))] |}
+       idlelog := idlelog r ++ [(has_retry_wakeup (wakeups r), length (mailbox r))] ; envlog := envlog r |}
   else r.
 
 (* drain the tick buffer (fuel bounds the number of ticks processed) *)
@@ -118,7 +119,7 @@ Fixpoint drain_ticks (P : policy) (r : rstate) (fuel : nat) : rstate :=
 Definition set_wait (r : rstate) tbuf' wk' mb' run' done' : rstate :=
   {| st := st r ; tbuf := tbuf' ; wakeups := wk' ; wseq := wseq r ; idle_pending := idle_pending r ;
      mailbox := mb' ; pending := [] ; runningw := run' ; donew := done' ;
-     published := published r ; ticklog := ticklog r ; outcome := outcome r ; clock := clock r ; tlog := tlog r ; idlelog := idlelog r |}.
+     published := published r ; ticklog := ticklog r ; outcome := outcome r ; clock := clock r ; tlog := tlog r ; idlelog := idlelog r ; envlog := envlog r |}.
 
 Fixpoint due (now : Z) (l : list (Z * Z * tick)) : list tick * list (Z * Z * tick) :=
   match l with
@@ -196,17 +197,17 @@ Definition act (P : policy) (r : rstate) (a : action) : rstate :=
           {| st := st r ; tbuf := tbuf r ; wakeups := wakeups r ; wseq := wseq r ; idle_pending := idle_pending r ;
              mailbox := mailbox r ++ sends ; pending := pending r ; runningw := run' ;
              donew := donew r ++ [(s, w, e, rs)] ; published := published r ; ticklog := ticklog r ;
-             outcome := outcome r ; clock := clock r ; tlog := tlog r ; idlelog := idlelog r |}
+             outcome := outcome r ; clock := clock r ; tlog := tlog r ; idlelog := idlelog r ; envlog := envlog r ++ sends |}
         | None => r
         end
       | ADeliver t =>
           {| st := st r ; tbuf := tbuf r ; wakeups := wakeups r ; wseq := wseq r ; idle_pending := idle_pending r ;
              mailbox := mailbox r ++ [t] ; pending := pending r ; runningw := runningw r ; donew := donew r ;
-             published := published r ; ticklog := ticklog r ; outcome := outcome r ; clock := clock r ; tlog := tlog r ; idlelog := idlelog r |}
+             published := published r ; ticklog := ticklog r ; outcome := outcome r ; clock := clock r ; tlog := tlog r ; idlelog := idlelog r ; envlog := envlog r ++ [t] |}
       | AAdvance dt =>
           {| st := st r ; tbuf := tbuf r ; wakeups := wakeups r ; wseq := wseq r ; idle_pending := idle_pending r ;
              mailbox := mailbox r ; pending := pending r ; runningw := runningw r ; donew := donew r ;
-             published := published r ; ticklog := ticklog r ; outcome := outcome r ; clock := clock r + dt ; tlog := tlog r ; idlelog := idlelog r |}
+             published := published r ; ticklog := ticklog r ; outcome := outcome r ; clock := clock r + dt ; tlog := tlog r ; idlelog := idlelog r ; envlog := envlog r |}
       end in
     run_until_blocked P r' loop_fuel
   | _ => r
@@ -215,7 +216,7 @@ Definition act (P : policy) (r : rstate) (a : action) : rstate :=
 Definition start (s : state) (e : event) (now : Z) : rstate :=
   {| st := s ; tbuf := [TAdd (blank e) None] ; wakeups := [] ; wseq := 0 ; idle_pending := false ;
      mailbox := [] ; pending := [] ; runningw := [] ; donew := [] ; published := [] ; ticklog := [] ;
-     outcome := ORunning ; clock := now ; tlog := [] ; idlelog := [] |}.
+     outcome := ORunning ; clock := now ; tlog := [] ; idlelog := [] ; envlog := [] |}.
 Definition run_at (P : policy) (s : state) (e : event) (now : Z) (acts : list action) : rstate :=
   fold_left (act P) acts (run_until_blocked P (start s e now) loop_fuel).
 Definition run (P : policy) (s : state) (e : event) (acts : list action) : rstate := run_at P s e 100 acts.
